@@ -7,7 +7,7 @@ full-system simulation of sysim.
 import copy
 import json
 
-from . import core, sysim
+from . import core, env, sysim
 from .runner import Violation
 from .syscheck import parse, jnorm, op_tokens, TOKEN, _fix_handle_count, INF
 
@@ -164,6 +164,8 @@ def gen_c01(rng):
             "methods": methods, "clients": clients, "lifecycle": "serve"}
     if instance:
         prog["instance"] = instance
+    if kind != "dispatcher" and rng.random() < 0.1:
+        prog["second_server"] = "early"  # a server on the other kind of listener lives in the same process
     return prog
 
 
@@ -622,9 +624,29 @@ class C04Scenario(C01Scenario):
 
 
 def gen_c13(rng):
-    if rng.random() < 0.35:
+    k = rng.random()
+    if k < 0.004:
+        return gen_c13_first_use(rng)
+    if k < 0.35:
         return gen_c13_small(rng)
     return gen_c13_full(rng)
+
+
+def gen_c13_first_use(rng):
+    """
+    The first two requests a process ever serves, concurrently, from freshly imported modules, under every single
+    pre-emption point of the run ("sweep"): whatever the library builds lazily at first use is built here.
+    """
+    sv = {"kind": "dispatcher", "family": "tcp", "version": rng.choice([2.0, 2.0, 1.0]), "handlers": False}
+    methods = {"echo": {"kind": "echo"}, "fail": {"kind": "fail"}, "sub": {"kind": "sub"}}
+    m = rng.choice(["echo", "echo", "echo", "fail", "sub", "nope"])
+    form = rng.choice(['{"method": "%s", "params": ["%s"], "id": "%s"}', '{"jsonrpc": "2.0", "method": "%s", "params": ["%s"], "id": "%s"}'])
+    clients = []
+    for ci in range(2):
+        tok = "c%do0" % ci
+        clients.append({"version": None, "history": False, "ops": [["raw", form % (m, tok, tok)]]})
+    return {"server": sv, "net": {"seg": "whole", "delay": 0}, "methods": methods, "clients": clients, "lifecycle": "serve",
+            "config_mutations": 0, "cold": True, "sweep": True}
 
 
 def gen_c13_small(rng):
@@ -643,8 +665,11 @@ def gen_c13_small(rng):
                 '{"jsonrpc": "2.0", "method": "%s", "params": ["%s"], "id": "%s"}' % (m, tok, tok),
             ])])
         clients.append({"version": None, "history": False, "ops": ops})
-    return {"server": sv, "net": {"seg": "whole", "delay": 0}, "methods": methods, "clients": clients, "lifecycle": "serve",
+    prog = {"server": sv, "net": {"seg": "whole", "delay": 0}, "methods": methods, "clients": clients, "lifecycle": "serve",
             "config_mutations": rng.getrandbits(16)}
+    if rng.random() < 0.15:
+        prog["cold"] = True  # freshly imported modules: the first requests a process ever serves
+    return prog
 
 
 def gen_c13_full(rng):
@@ -836,6 +861,8 @@ class C13Scenario(C04Scenario):
         return gen_c13(rng)
 
     def run(self, program, decider, chooser=None):
+        if program.get("cold"):
+            env.cold_start()  # freshly imported modules, as in sysim.execute()
         s = core.Sched(decider, step_cap=160000, horizon=sysim.FAR * 8 + 2048, chooser=chooser)
         run = sysim.SysRun(program, s)
 
